@@ -14,13 +14,49 @@ import (
 // leave behind - the buffer of an HMAC object is its only state), the cipher objects satisfy the
 // representation invariant (keyed block, no cached IV, no cached padding).
 func vUsedKey(km *VKeyMaterial, junk int) *security.IKESAKey {
-	k := VNewKey(km)
 	if junk > 0 {
-		for _, h := range []hash.Hash{k.Integ_i, k.Integ_r} {
-			h.Write(vr.Bytes(junk))
-		}
+		return vUsedKeyFrom(km, vr.Bytes(junk), vr.Bytes(junk))
+	}
+	return VNewKey(km)
+}
+
+func vUsedKeyFrom(km *VKeyMaterial, junkI, junkR []byte) *security.IKESAKey {
+	k := VNewKey(km)
+	if len(junkI) > 0 {
+		k.Integ_i.Write(junkI)
+		k.Integ_r.Write(junkR)
 	}
 	return k
+}
+
+// vNativeForgeUsed is the native confirmation of a counterexample in which a *used* object accepts a
+// forged datagram because of what its keyed-hash objects still hold: every checksum the code under test
+// reads from those objects while handling the datagram is written into the datagram's ICV field, and
+// the datagram is presented to an object in the same state; it must be rejected unless the ICV is the
+// HMAC of everything before it.
+func vNativeForgeUsed(km *VKeyMaterial, junkI, junkR []byte, role int, b []byte) {
+	icv := VIntegOutLen[km.Suite%3]
+	spied := vUsedKeyFrom(km, junkI, junkR)
+	si, sr := &vr.SpyHash{Inner: spied.Integ_i}, &vr.SpyHash{Inner: spied.Integ_r}
+	var hi, hr hash.Hash = si, sr
+	spied.Integ_i, spied.Integ_r = hi, hr
+	_, _ = DecodeDecrypt(b, nil, spied, vRole(role))
+	for _, sum := range append(si.Sums, sr.Sums...) {
+		if len(sum) < icv || len(b) < icv {
+			continue
+		}
+		x := append([]byte{}, b...)
+		copy(x[len(x)-icv:], sum[:icv])
+		if vValid(km, role, x) {
+			continue
+		}
+		again, decs := vUsedKeyFrom(km, junkI, junkR), 0
+		again.Encr_i = &vSpyCrypto{inner: again.Encr_i, dec: &decs}
+		again.Encr_r = &vSpyCrypto{inner: again.Encr_r, dec: &decs}
+		_, err := DecodeDecrypt(x, nil, again, vRole(role))
+		vr.Assert("c17.cipher-after-mac", decs == 0)
+		vr.Assert("c17.forged-rejected", err != nil)
+	}
 }
 
 func vInvariant(k *security.IKESAKey) bool {
@@ -92,13 +128,20 @@ func HReuseStep() {
 func HReuseReject() {
 	suite, role, junk, n := vr.Param(0), vr.Param(1), vr.Param(2), vr.Param(3)
 	km := VGenKeyMaterial(suite)
-	used := vUsedKey(km, junk)
+	var junkI, junkR []byte
+	if junk > 0 {
+		junkI, junkR = vr.Bytes(junk), vr.Bytes(junk)
+	}
+	used := vUsedKeyFrom(km, junkI, junkR)
 	if n < 32 {
 		return // no room for an Encrypted payload: such datagrams are plain ones (C04 / C02-O4)
 	}
 	b := vr.Input(n)
 	vr.Assume(int(b[30])<<8|int(b[31]) == n-28)
 	vr.Assume(b[16] == uint8(message.TypeSK))
+	if vr.Native() {
+		vNativeForgeUsed(km, junkI, junkR, role, b)
+	}
 	valid := vValid(km, role, b)
 	vr.Assume(!valid)
 	vr.GuardCipher("c17.cipher-after-mac", valid)
